@@ -497,10 +497,14 @@ impl Drop for Driver {
         for entry in cqueue {
             match entry.user_data() {
                 Self::CANCEL | Self::NOTIFY => {}
-                key => {
+                // Only a final completion returns the reference that was leaked to the
+                // kernel. Intermediate ones (multishot results, the result half of a
+                // zero-copy send) leave the key in flight; it is freed below, once.
+                key if !more(entry.flags()) => {
                     self.in_flight.remove(&(key as usize));
                     drop(unsafe { ErasedKey::from_raw(key as _) });
                 }
+                _ => {}
             }
         }
 
